@@ -24,47 +24,46 @@ def R(name):
 
 
 def alu(op, rd, rs1, rs2):
-    return "RInst::Alu { op: Alu::%s, rd: %d, rs1: %d, rs2: %d }" % (op, R(rd), R(rs1), R(rs2))
+    return {"k": "Alu", "op": op, "rd": R(rd), "rs1": R(rs1), "rs2": R(rs2)}
 
 
 def alui(op, rd, rs1, imm):
-    return "RInst::AluImm { op: Alu::%s, rd: %d, rs1: %d, imm: %d }" % (op, R(rd), R(rs1), imm)
+    return {"k": "AluImm", "op": op, "rd": R(rd), "rs1": R(rs1), "imm": imm}
 
 
 def const(rd, value):
-    return "RInst::Const { rd: %d, value: %s }" % (R(rd), value)
+    return {"k": "Const", "rd": R(rd), "value": value}
 
 
 def jal(rd):
-    return "RInst::Jal { rd: %d }" % R(rd)
+    return {"k": "Jal", "rd": R(rd)}
 
 
 def jalr(rd, rs1, imm):
-    return "RInst::Jalr { rd: %d, rs1: %d, imm: %d }" % (R(rd), R(rs1), imm)
+    return {"k": "Jalr", "rd": R(rd), "rs1": R(rs1), "imm": imm}
 
 
 def br(cond, rs1, rs2):
-    return "RInst::Branch { cond: Cond::%s, rs1: %d, rs2: %d }" % (cond, R(rs1), R(rs2))
+    return {"k": "Branch", "cond": cond, "rs1": R(rs1), "rs2": R(rs2)}
 
 
 def load(w, signed, rd, rs1, imm):
-    return "RInst::Load { width: Width::%s, signed: %s, rd: %d, rs1: %d, imm: %d }" % (
-        w, "true" if signed else "false", R(rd), R(rs1), imm)
+    return {"k": "Load", "width": w, "signed": bool(signed), "rd": R(rd), "rs1": R(rs1), "imm": imm}
 
 
 def store(w, rs1, rs2, imm):
-    return "RInst::Store { width: Width::%s, rs1: %d, rs2: %d, imm: %d }" % (w, R(rs1), R(rs2), imm)
+    return {"k": "Store", "width": w, "rs1": R(rs1), "rs2": R(rs2), "imm": imm}
 
 
 def csr(op, rd, num, rs1):
-    return "RInst::Csr { op: CsrOp::%s, rd: %d, csr: %d, rs1: %d }" % (op, R(rd), num, R(rs1))
+    return {"k": "Csr", "op": op, "rd": R(rd), "csr": num, "rs1": R(rs1)}
 
 
 def csri(op, rd, num, uimm):
-    return "RInst::CsrImm { op: CsrOp::%s, rd: %d, csr: %d, uimm: %d }" % (op, R(rd), num, uimm)
+    return {"k": "CsrImm", "op": op, "rd": R(rd), "csr": num, "uimm": uimm}
 
 
-SYSTEM = "RInst::System"
+SYSTEM = {"k": "System"}
 LA = "LA_ADDR"
 
 E = []  # (tier, name, text, [expected], label or None, note)
@@ -211,29 +210,17 @@ add("thorough", "v_fp_alias", "mv fp, sp", [alui("Add", "s0", "sp", 0)])
 def main():
     here = os.path.dirname(os.path.abspath(__file__))
     names = set()
-    out = []
-    out.append("//! GENERATED by catalogue/gen_text.py - do not edit.\n")
-    out.append("use crate::ob_text::{text_case, LA_ADDR};\nuse crate::rvref::{Alu, Cond, CsrOp, RInst, Width};\n\n")
-    out.append("crate::obligations! {\n")
     cases = []
-    maxlen = 0
     for tier, name, text, expected, label in E:
         assert name not in names, name
         names.add(name)
-        maxlen = max(maxlen, len(text) + 1)
-        lab = 'Some("%s")' % label if label else "None"
-        out.append('    #[kani::stub(uuid::Uuid::new_v4, crate::stubs::uuid_counter)]\n')
-        out.append('    #[kani::stub(str::to_lowercase, crate::stubs::ascii_lowercase)]\n')
-        out.append('    #[kani::unwind(%d)]\n' % (len(text) + 6))
-        out.append('    fn text_%s(s) { text_case(s, "%s\\n", &[%s], %s) }\n' % (
-            name, text.replace('"', '\\"'), ", ".join(expected), lab))
-        cases.append({"name": "text_" + name, "tier": tier, "text": text,
-                      "expected": [e.replace("RInst::", "") for e in expected], "label": label,
+        for e in expected:
+            if e.get("k") == "Const" and isinstance(e["value"], str) and e["value"] != LA:
+                e["value"] = int(e["value"], 0)
+        cases.append({"name": "text_" + name, "tier": tier, "text": text, "expected": expected, "label": label,
                       "pseudo": name.startswith("p_")})
-    out.append("}\n")
-    open(os.path.join(here, "..", "src", "gen_text.rs"), "w").write("".join(out))
     json.dump(cases, open(os.path.join(here, "text_cases.json"), "w"), indent=1)
-    print("%d text cases (%d quick), longest %d" % (len(cases), len([c for c in cases if c["tier"] == "quick"]), maxlen))
+    print("%d text cases (%d quick)" % (len(cases), len([c for c in cases if c["tier"] == "quick"])))
 
 
 if __name__ == "__main__":
